@@ -163,6 +163,28 @@ def entry_corr(ctx, items):
     return mism
 
 
+def distances_agree(a, radii="covalent"):
+    """get_distances(a) is the minimum-image table of get_displacement_tensor for the structure's OWN pbc (whenever some direction is
+    periodic), minus the sum of the radii — bit for bit; returns a description of the first difference or None"""
+    import matid.geometry as G
+    D = G.get_distances(a, radii)
+    pbc = np.array(a.get_pbc(), dtype=bool)
+    pos, cell = a.get_positions(), a.get_cell()
+    if pbc.any():
+        disp, fac, dist = G.get_displacement_tensor(pos, cell, pbc, return_factors=True, return_distances=True)
+    else:
+        disp, dist = G.get_displacement_tensor(pos, return_distances=True)
+        fac = np.zeros(disp.shape)
+    r = G.get_radii(radii, a.get_atomic_numbers())
+    if not np.array_equal(np.asarray(D.dist_matrix_mic), np.asarray(dist)):
+        return "dist_matrix_mic is not the minimum-image table for pbc %s" % pbc.tolist()
+    if not np.array_equal(np.asarray(D.disp_factors), np.asarray(fac)):
+        return "disp_factors differ from the minimum-image table for pbc %s" % pbc.tolist()
+    if np.asarray(D.dist_matrix_radii_mic).dtype != np.float64 or not np.array_equal(np.asarray(D.dist_matrix_radii_mic), np.asarray(dist) - (r[:, None] + r[None, :])):
+        return "dist_matrix_radii_mic is not dist_matrix_mic - (r_i + r_j) in double precision"
+    return None
+
+
 PIPELINE_THEOREMS = ["Matid.Props.C01." + t for t in ("pipeline_wellformed", "pipeline_order_ok", "merge_species_invariant", "merge_keeps_atoms_in_range")]
 
 
@@ -176,6 +198,17 @@ def pipeline_corr(ctx, broken, items):
     if not ok:
         broken.append(("pipeline-proof", info))
     items = [it for it in items if it[0] is not None]
+    dd = []
+    for _, clusters, desc in items[:10]:
+        try:
+            why = distances_agree(clusters[0]._system)
+        except Exception as e:  # noqa
+            why = "exception %r" % e
+        ctx.count("get_distances_vs_displacement_tensor")
+        if why:
+            dd.append({"what": why, "case": desc})
+    if dd:
+        broken.append(("distances-correspondence", {"function": "matid.geometry.get_distances", "count": len(dd), "mismatches": dd[:3]}))
     if not items:
         return
     try:
